@@ -141,7 +141,7 @@ func loadProgram(only map[string]bool) (*Program, error) {
 	}
 	prog, spkgs := ssautil.AllPackages(pkgs, ssa.InstantiateGenerics)
 	prog.Build()
-	for _, p := range []string{"io", "bytes", "strconv", "unicode/utf8", "math", "encoding/binary", "unicode", "math/bits", "strings", "unicode/utf16"} {
+	for _, p := range []string{"io", "bytes", "strconv", "unicode/utf8", "math", "encoding/binary", "encoding/base64", "unicode", "math/bits", "strings", "unicode/utf16"} {
 		interp.InitWhitelist[p] = true
 	}
 	P := &Program{Prog: prog, Pkgs: map[string]*ssa.Package{}, Funcs: harn}
